@@ -1485,7 +1485,7 @@ class Staircase(Pbox):
 
         This suggests that the exponent (i.e. `other`) can also be an uncertain number.
         """
-        from .operation import frechet_op, vectorized_cartesian_op
+        from .operation import frechet_op, perfect_op, opposite_op, independent_op
 
         if isinstance(other, Number):
             if self.straddles_zero():
@@ -1504,14 +1504,11 @@ class Staircase(Pbox):
             case "f":
                 nleft, nright = frechet_op(self, other, operator.pow)
             case "p":
-                nleft = self.left**other.left
-                nright = self.right**other.right
+                nleft, nright = perfect_op(self, other, operator.pow)
             case "o":
-                nleft = self.left ** np.flip(other.right)
-                nright = self.right ** np.flip(other.left)
+                nleft, nright = opposite_op(self, other, operator.pow)
             case "i":
-                nleft = vectorized_cartesian_op(self.left, other.left, operator.pow)
-                nright = vectorized_cartesian_op(self.right, other.right, operator.pow)
+                nleft, nright = independent_op(self, other, operator.pow)
         nleft.sort()
         nright.sort()
         return Staircase(left=nleft, right=nright)
